@@ -78,6 +78,7 @@ func TestVerifC28Relay(t *testing.T) {
 		"self": "every node of the topology", "target": "every other node and X (not in the network)",
 		"stored_paths": "every subset of {[T,h], [T,g(h),h] : h any node other than self and target, g(h) the next such node} (paths towards the target ending in last hop h)",
 		"relay_path":   "every sequence of 0..2 distinct nodes other than self and the target (the nodes the stream already went through)",
+		"prior_relay":  "with and without an earlier relayed stream for the same target (empty path) handled by the same service instance",
 		"repetitions":  fmt.Sprintf("%d when more than one next hop is stored (the implementation picks with math/rand)", reps)}},
 		func(x *mc.X) {
 			topo := c28Topos[topoIdx[x.Choose(len(topoIdx))]]
@@ -124,6 +125,9 @@ func TestVerifC28Relay(t *testing.T) {
 				}
 			}
 			via := seqs[x.Choose(len(seqs))]
+			// state reached first: the same node may already have relayed an earlier stream for
+			// this target (one that had not passed through any node yet)
+			prior := x.Choose(2) == 1
 			names := func(p []int) string {
 				var sb strings.Builder
 				for _, i := range p {
@@ -135,7 +139,7 @@ func TestVerifC28Relay(t *testing.T) {
 			for _, p := range stored {
 				storedNames = append(storedNames, names(p))
 			}
-			x.Logf("%s: node %c (topology %s) relays a stream for %c that went through [%s]; stored paths %v", handler, c28Letters[self], topo.name, c28Letters[tg], names(via), storedNames)
+			x.Logf("%s: node %c (topology %s) relays a stream for %c that went through [%s]; stored paths %v prior-relay=%v", handler, c28Letters[self], topo.name, c28Letters[tg], names(via), storedNames, prior)
 
 			w := worlds[topoIdxOf(topo)]
 			if w == nil {
@@ -201,20 +205,30 @@ func TestVerifC28Relay(t *testing.T) {
 					from = c28Idents[via[len(via)-1]].overlay
 				}
 				var herr error
-				switch handler {
-				case "onRelayConnChain":
-					var buf bytes.Buffer
-					x.NoErr(protobuf.NewWriter(c28RW{&buf}).WriteMsgWithContext(ctx, req), "encode relay request")
-					st, _ := netsim.NewInStream(buf.Bytes(), nil)
-					herr = svc.onRelayConnChain(ctx, p2p.Peer{Address: from}, st)
-				default:
-					pm.req = req
-					st, _ := netsim.NewInStream(nil, nil)
-					herr = svc.onRelay(ctx, p2p.Peer{Address: from}, st)
+				relay := func(req *pb.RouteRelayReq, from boson.Address) error {
+					switch handler {
+					case "onRelayConnChain":
+						var buf bytes.Buffer
+						x.NoErr(protobuf.NewWriter(c28RW{&buf}).WriteMsgWithContext(ctx, req), "encode relay request")
+						st, _ := netsim.NewInStream(buf.Bytes(), nil)
+						return svc.onRelayConnChain(ctx, p2p.Peer{Address: from}, st)
+					default:
+						pm.req = req
+						st, _ := netsim.NewInStream(nil, nil)
+						return svc.onRelay(ctx, p2p.Peer{Address: from}, st)
+					}
 				}
+				firstDial := 0
+				if prior {
+					req0 := *req
+					req0.Paths = nil
+					_ = relay(&req0, c28Idents[c28X].overlay)
+					firstDial = len(net.Dials())
+				}
+				herr = relay(req, from)
 				cancel()
 				var relayDials []netsim.Dial
-				for _, d := range net.Dials() {
+				for _, d := range net.Dials()[firstDial:] {
 					if d.Stream == StreamOnRelay || d.Stream == StreamOnRelayConnChain {
 						relayDials = append(relayDials, d)
 					}
